@@ -248,6 +248,13 @@ func init() {
 			if strings.Join(got, ",") != strings.Join(want, ",") {
 				p.fail(Violation{Clause: "registry-contents", Key: where, Detail: fmt.Sprintf("GetAllTags()=%v, registered=%v", got, want)}, where)
 			}
+			// the list is the caller's: overwritten here, the next call (no registration in between) reports the registry again
+			for i := range got {
+				got[i] = "SCRIBBLED"
+			}
+			if again := log.GetAllTags(); strings.Join(again, ",") != strings.Join(want, ",") {
+				p.fail(Violation{Clause: "registry-contents", Key: where, Detail: fmt.Sprintf("after the caller overwrote the list it had received: GetAllTags()=%v, registered=%v", again, want)}, where)
+			}
 		}
 		one := func(s string) {
 			p.Executions++
